@@ -2,6 +2,7 @@
 pub mod common;
 pub mod hist;
 pub mod searchlib;
+pub mod ucilib;
 
 pub mod c01;
 pub mod c02;
@@ -10,8 +11,10 @@ pub mod c04;
 pub mod c06;
 pub mod c07;
 pub mod c08;
+pub mod c09;
 pub mod c10;
 pub mod c11;
+pub mod c12;
 pub mod c15;
 pub mod c16;
 pub mod c18;
@@ -20,7 +23,7 @@ pub mod c20;
 
 use crate::framework::Run;
 
-pub const ALL: [&str; 14] = ["C01", "C02", "C03", "C04", "C06", "C07", "C08", "C10", "C11", "C15", "C16", "C18", "C19", "C20"];
+pub const ALL: [&str; 16] = ["C01", "C02", "C03", "C04", "C06", "C07", "C08", "C09", "C10", "C11", "C12", "C15", "C16", "C18", "C19", "C20"];
 
 pub fn dispatch(id: &str, run: &mut Run) -> Option<&'static str> {
     match id {
@@ -31,8 +34,10 @@ pub fn dispatch(id: &str, run: &mut Run) -> Option<&'static str> {
         "C06" => Some(c06::run(run)),
         "C07" => Some(c07::run(run)),
         "C08" => Some(c08::run(run)),
+        "C09" => Some(c09::run(run)),
         "C10" => Some(c10::run(run)),
         "C11" => Some(c11::run(run)),
+        "C12" => Some(c12::run(run)),
         "C15" => Some(c15::run(run)),
         "C16" => Some(c16::run(run)),
         "C18" => Some(c18::run(run)),
